@@ -283,6 +283,9 @@ func (c *trCtx) varType(o types.Object, pos token.Pos) string {
 	if r, ok := c.perfVarType(o, pos); ok {
 		return r
 	}
+	if r, ok := c.createVarType(o, pos); ok {
+		return r // a node-pointer parameter of a Create function is the node (trans_units_create.go)
+	}
 	return c.leanType(o.Type(), pos)
 }
 
